@@ -420,6 +420,12 @@ class Ctx:
                 return linear.const(am["default_len"])
             if nm.split("::")[-1] == "new" and not args and ("Vec" in nm or "Properties" in nm):
                 return linear.const(0)                                  # an empty list
+        try:
+            l = self.lin.len_of(v)          # slicing algebra, collected vectors, ...
+            if not (len(l[0]) == 1 and l[1] == 0 and list(l[0])[0] == ("len", v)):
+                return self.canon(l)
+        except RecursionError:
+            pass
         return linear.atom(("SIZE", v))
 
     def consumed_atom(self, a):
